@@ -576,6 +576,9 @@ func (s *Sim) onImport(m *Model, t *TxTrace, voter common.Address) {
 		if t.OK || !noWrites(t) {
 			r.Fail("C21", "import-to-unregistered-or-blacklisted-destination", "%v accepted although destination chain %d is unregistered or blacklisted", st, dst)
 		}
+		if !noWrites(t) {
+			r.Fail("C22", "rejected-import-committed-state", "%v towards the unregistered / blacklisted destination %d is refused but left %d writes (done mark, vote record) in the committed state", st, dst, len(t.Writes))
+		}
 		r.Probe("import_rejected_destination_gate")
 		return
 	}
